@@ -99,11 +99,21 @@ func packF16(f float32) []byte {
 		f = -671088.64
 	}
 
-	signedMantissa := int(f * 100)
+	// Find the exponent first and round to the nearest mantissa at that exponent: truncating (here
+	// or while halving) would make a decoded value drift downwards every time it is written back.
+	scaled := float64(f) * 100
 	exp := 0
 
-	for signedMantissa > 2047 || signedMantissa < -2048 {
-		signedMantissa /= 2
+	for scaled > 2047 || scaled < -2048 {
+		scaled /= 2
+		exp++
+	}
+
+	signedMantissa := int(math.Round(scaled))
+
+	// Rounding may have carried the mantissa out of its 12 bits.
+	if signedMantissa > 2047 {
+		signedMantissa = int(math.Round(scaled / 2))
 		exp++
 	}
 
